@@ -260,6 +260,14 @@ Theorem C17_linker_is_getlink :
     look_for_intersphinx links root_names obj_full name = get_link links name.
 Proof. exact linker_is_getlink. Qed.
 
+(* A subject that is not visible -- hidden itself or, for an --html-subject below the roots, below a hidden ancestor
+   (the `hidden` flag of a subject is `not isVisible`) -- contributes no line and no entry, whatever it contains. *)
+Theorem C17_invisible_subject_lists_nothing :
+  forall (roots : list text) (n : text) (t : N) (cs rest : list obj),
+    gen_lines roots (Obj n t true cs :: rest) = gen_lines roots rest /\
+    entries roots (Obj n t true cs :: rest) = entries roots rest.
+Proof. exact invisible_subject_lists_nothing. Qed.
+
 (* driver.make: whenever HTML is written the inventory is written as well, for exactly the subjects whose pages are
    written (the --html-subject objects, none under --html-summary-pages, else the roots); without HTML an inventory
    covers the root objects. *)
